@@ -39,6 +39,7 @@ class Cfg(object):
         self.array_idx = None             # override index types
         self.share = 25                   # % chance to reuse a pooled sub-term
         self.same_child = 12              # % chance that a binary op gets x op x
+        self.sym_offset = 0               # symbol index offset (disjoint name spaces)
         for k, v in kw.items():
             if not hasattr(self, k):
                 raise AttributeError(k)
@@ -232,13 +233,13 @@ class G(object):
 
     # ---- symbols
     def symbol(self, ty):
-        return sym(symname(ty, self.i(self.cfg.nsyms)), ty)
+        return sym(symname(ty, self.cfg.sym_offset + self.i(self.cfg.nsyms)), ty)
 
     def fun_symbol(self, ret):
         n = self.weighted([(5, 1), (3, 2), (1, 3)])
         params = tuple(self.param_type() for _ in range(n))
         ft = FUN(ret, params)
-        return (symname(ft, self.i(2)), ft)
+        return (symname(ft, self.cfg.sym_offset + self.i(2)), ft)
 
     # ---- terms
     def leaf(self, ty):
@@ -390,7 +391,7 @@ class G(object):
             vs = []
             for _ in range(n):
                 qt = self.choice(qts)
-                v = (symname(qt, self.i(c.nsyms)), qt)
+                v = (symname(qt, c.sym_offset + self.i(c.nsyms)), qt)
                 if v not in vs:
                     vs.append(v)
             # make the bound variables likely to occur in the body
@@ -412,7 +413,7 @@ class G(object):
             a, b = self.two(ty, d1)
             return app(kind.upper(), a, b)
         if kind == "pow":
-            return app("POW", T(ty, d1), const(ty, Fraction(self.i(4))))
+            return app("POW", T(ty, d1), const(ty, Fraction(self.i(4)) if ty == REAL else self.i(4)))
         if kind == "toreal":
             return app("TOREAL", T(INT, d1))
         if kind == "bv2nat":
